@@ -7,3 +7,7 @@ open Cst.C05
 #print axioms completion_reads_slot
 #print axioms loser_net_zero
 #print axioms slot_protocol_facts
+#print axioms slots_canonical_any_interleaving
+#print axioms concurrent_agrees_with_sequential
+#print axioms race_loser_unobservable
+#print axioms atomic_is_get_or_add
